@@ -78,7 +78,8 @@ func runForInMutate(r *engine.Run) {
 				if obs != "ok" {
 					r.Mismatch(engine.Mismatch{Key: key, Input: src, Expected: "ok (each surviving property once, nothing twice, nothing after its deletion)",
 						Observed: obs + " (visited: " + val + ")", Aux: map[string]string{"part": "forin-mutate", "visited": val, "deletes": a.deletes, "adds": a.adds, "step": fmt.Sprint(step),
-							"alt": liveOrderForIn(sh.own, sh.proto, step, a.deletes, a.adds, a.onProto)}})
+							"alt":  liveOrderForIn(sh.own, sh.proto, step, a.deletes, a.adds, a.onProto, true),
+							"alt0": liveOrderForIn(sh.own, sh.proto, step, a.deletes, a.adds, a.onProto, false)}})
 				}
 			}
 		}
@@ -131,9 +132,12 @@ func judgeForIn(visited string, initial []string, step int, deletes, adds string
 // chain is a Go range over the object's order slice taken when its turn starts,
 // deletions shift the backing array in place (append(s[:i], s[i+1:]...)),
 // additions append; a name missing from the table counts as not enumerable.
-// No shadowing (finding c07-forin-ignores-shadowing). Real Go slices are used so
+// visitedSet selects the for-in loop after the shadowing repair (/repo 4f98aff:
+// every own name, enumerable or not, is looked at once; names already seen or
+// without an own property are skipped) or before it (enumerable names only, no
+// shadowing, finding c07-forin-ignores-shadowing). Real Go slices are used so
 // that capacity effects are reproduced by construction.
-func liveOrderForIn(own, proto []string, step int, deletes, adds string, onProto bool) string {
+func liveOrderForIn(own, proto []string, step int, deletes, adds string, onProto bool, visitedSet bool) string {
 	type lobj struct {
 		order []string
 		enum  map[string]bool
@@ -178,8 +182,15 @@ func liveOrderForIn(own, proto []string, step int, deletes, adds string, onProto
 	}
 	var seq []string
 	i := 0
+	visited := map[string]bool{}
 	for o := x; o != nil; o = o.proto {
 		for _, name := range o.order {
+			if visitedSet {
+				if visited[name] {
+					continue
+				}
+				visited[name] = true
+			}
 			if !o.enum[name] {
 				continue
 			}
